@@ -131,3 +131,242 @@ Example C06_nonvacuous :
   | None => False
   end.
 Proof. cbn zeta. vm_compute. repeat split; discriminate. Qed.
+
+(* ======================================================================================================================
+   EVERY WRITING ENTRY POINT (Entry.v).  `ecall` is one call of write_arrays (EArrays), of write_dicts or a backend writer called
+   directly (EDicts: no overwrite parameter), of geff.write (EApi), of from_ctc_to_geff / `geff convert-ctc` (ECtc: own guard, the
+   label-volume export -- which lands inside the target when the segmentation target lies in the geff directory --, the graph logic
+   of Ctc.v, write_arrays(overwrite=False)) or of from_trackmate_xml_to_geff / `geff convert-trackmate-xml` (ETm: _preliminary_checks,
+   the graph logic of TrackMate.v, NxBackend.write -> write_dicts -> write_arrays(overwrite=False)).  e_kind / e_ov / e_ready = the
+   store kind, whether overwrite was requested (never for EDicts), whether the converter's input files exist.
+   ====================================================================================================================== *)
+From Geff Require Import Entry EntryLemmas EntryConvLemmas.
+From Geff Require Ctc CtcLemmas TrackMate TrackMateLemmas TrackMateProps TrackMateValid Table TableLemmas.
+
+(* refusal: whatever the entry point and its input, a location that holds a geff is left exactly as it is (same state, no
+   mutation) unless overwrite was requested; the error is FileExistsError (FileNotFoundError when the converter's input is missing) *)
+Theorem C06_entry_refuse : forall c pre,
+  exists_geff (e_kind c) pre = true -> e_ov c = false ->
+  e_run c (init pre) = (init pre, Err (if e_ready c then FileExistsError else FileNotFoundError)).
+Proof. exact entry_refuse. Qed.
+Print Assumptions C06_entry_refuse.
+
+(* nothing there: the own guard is invisible, the overwrite flag irrelevant *)
+Theorem C06_entry_vacant : forall c s,
+  exists_geff (e_kind c) (s_root s) = false ->
+  e_run c s = if e_ready c then e_body c s else (s, Err FileNotFoundError).
+Proof. exact entry_vacant. Qed.
+Print Assumptions C06_entry_vacant.
+
+(* overwrite over a geff: delete_geff removes the old nodes, edges and geff attribute completely (`cleaned`), THEN the call
+   continues -- so it is the same call made on the cleaned location whenever that location is vacant for the guards *)
+Theorem C06_entry_overwrite : forall c s a ch,
+  e_ready c = true -> e_ov c = true -> s_root s = Some (ZG a ch) -> ahas "geff" a = true ->
+  exists tr, delete_geff (e_kind c) s = (mkst (cleaned (e_kind c) a ch) tr, Ok tt) /\
+    e_run c s = e_body c (mkst (cleaned (e_kind c) a ch) tr) /\
+    (exists_geff (e_kind c) (cleaned (e_kind c) a ch) = false -> e_run c s = e_run c (mkst (cleaned (e_kind c) a ch) tr)).
+Proof. exact entry_overwrite. Qed.
+Print Assumptions C06_entry_overwrite.
+
+(* when IS the cleaned location vacant: always for a store object (C06_api_overwrite_store_object); for a path exactly when the
+   directory held nothing beside nodes and edges -- the converters only take paths *)
+Theorem C06_path_vacant_iff : forall a ch,
+  exists_geff KPath (cleaned KPath a ch) = false <-> adel path_EDGES (adel path_NODES ch) = [].
+Proof. exact cleaned_path_vacant_iff. Qed.
+Print Assumptions C06_path_vacant_iff.
+
+(* the full statement for the entry points that convert: "with overwrite, the call behaves as write_arrays(overwrite=True) on the
+   graph it converts to" ... *)
+Definition C06_entry_full : Prop := forall c a ch g md,
+  e_ready c = true -> e_ov c = true -> e_conv c = Ok (g, md) -> ahas "geff" a = true ->
+  e_run c (init (Some (ZG a ch))) = write_arrays (e_kind c) g md (e_v c) true (init (Some (ZG a ch))).
+
+(* ... holds for the entry points with two guards in a row (geff.write, the TrackMate converter, the CTC converter whose label
+   volume goes elsewhere) exactly where the cleaned location is vacant; then C06_replace applies: *)
+Theorem C06_entry_overwrite_partial : forall c s a ch g md,
+  e_two_guards c = true -> e_ready c = true -> e_ov c = true -> e_conv c = Ok (g, md) ->
+  s_root s = Some (ZG a ch) -> ahas "geff" a = true -> exists_geff (e_kind c) (cleaned (e_kind c) a ch) = false ->
+  e_run c s = write_arrays (e_kind c) g md (e_v c) true s.
+Proof. exact entry_overwrite_as_arrays. Qed.
+Print Assumptions C06_entry_overwrite_partial.
+
+Theorem C06_entry_replaces : forall c a ch g md md' n e,
+  e_two_guards c = true -> e_ready c = true -> e_ov c = true -> e_v c = true -> e_conv c = Ok (g, md) ->
+  ahas "geff" a = true -> exists_geff (e_kind c) (cleaned (e_kind c) a ch) = false ->
+  wf_input g md n e -> final_metadata g md = Ok md' ->
+  let k := e_kind c in
+  let post := layout (cleaned k a ch) g (backfill (w_nids g) md (w_nprops g)) md' in
+  (exists tr, e_run c (init (Some (ZG a ch))) = (mkst (Some post) tr, Ok tt)) /\
+  validate_structure k (Some post) = Ok tt /\
+  read_to_memory k (Some post) true None None
+  = Ok (mkmg md' (w_nids g) (w_eids g) (up_props (backfill (w_nids g) md (w_nprops g))) (up_props (w_eprops g))).
+Proof. exact entry_replaces. Qed.
+Print Assumptions C06_entry_replaces.
+
+(* ... and is a refusal everywhere else: the old geff is deleted, the call raises, nothing is written -- for EVERY input *)
+Theorem C06_entry_overwrite_beside : forall c s a ch,
+  e_two_guards c = true -> e_ready c = true -> e_ov c = true ->
+  s_root s = Some (ZG a ch) -> ahas "geff" a = true -> exists_geff (e_kind c) (cleaned (e_kind c) a ch) = true ->
+  exists tr, e_run c s = (mkst (cleaned (e_kind c) a ch) tr,
+                          Err (match e_conv c with Ok _ => FileExistsError | Err e => e end)).
+Proof. exact entry_overwrite_beside. Qed.
+Print Assumptions C06_entry_overwrite_beside.
+
+(* the two converters, with what they are known to convert to (C15 / C16): over a directory that holds only the geff, the result
+   is exactly that of the conversion onto a free target (C15_valid / C16_valid) -- nothing of the old graph survives *)
+Theorem C06_ctc_overwrite_replaces : forall d vol a ch,
+  CtcLemmas.consistent d -> CtcLemmas.seg_free d -> seg_rel d = None -> Ctc.d_overwrite d = true ->
+  ahas "geff" a = true -> adel path_EDGES (adel path_NODES ch) = [] ->
+  let ns := Ctc.nodes_of (Ctc.d_frames d) in
+  exists es md' tr post,
+    Ctc.graph_edges ns (CtcLemmas.table_of d) = Ok es /\
+    final_metadata (Ctc.ctc_wgraph (Ctc.d_is3d d) ns es) (Ctc.ctc_md (Ctc.d_is3d d)) = Ok md' /\
+    ctc_write d vol (init (Some (ZG a ch))) = (mkst (Some post) tr, Ok tt) /\
+    Ctc.from_ctc_to_geff d (init (Some (ZG a ch))) = (mkst (Some post) tr, Ok tt) /\
+    validate_structure KPath (Some post) = Ok tt /\
+    read_to_memory KPath (Some post) true None None =
+      Ok (mkmg md' (mkarr DU64 [length ns] (map Ctc.n_id ns)) (mkarr DU64 [length es; 2%nat] (Ctc.flat_edges es))
+               (Ctc.ctc_props (Ctc.d_is3d d) ns) []).
+Proof. exact ctc_overwrite_replaces. Qed.
+Print Assumptions C06_ctc_overwrite_replaces.
+
+Theorem C06_tm_overwrite_replaces : forall d ds dt a ch,
+  TrackMateLemmas.wf_tm d -> ahas "geff" a = true -> adel path_EDGES (adel path_NODES ch) = [] ->
+  exists md' tr post,
+    final_metadata (TrackMateValid.wgraph_final d ds dt) (TrackMateValid.md_final d ds dt) = Ok md' /\
+    TrackMate.from_trackmate d ds dt true (init (Some (ZG a ch))) = (mkst (Some post) tr, Ok tt) /\
+    validate_structure KPath (Some post) = Ok tt /\
+    read_to_memory KPath (Some post) true None None =
+      Ok (mkmg md' (TrackMateValid.nids_arr d ds dt) (TrackMateValid.eids_arr d ds dt)
+               (TrackMateValid.nps_final d ds dt) (TrackMateValid.eprops_of d ds dt)).
+Proof. exact tm_overwrite_replaces. Qed.
+Print Assumptions C06_tm_overwrite_replaces.
+
+(* ... and beside anything else in the directory: geff deleted, conversion raises (FileExistsError whenever the dataset converts) *)
+Theorem C06_ctc_overwrite_beside : forall d vol a ch s,
+  Ctc.d_dir d = true -> Ctc.d_table d <> None -> Ctc.d_overwrite d = true -> seg_rel d = None ->
+  s_root s = Some (ZG a ch) -> ahas "geff" a = true -> adel path_EDGES (adel path_NODES ch) <> [] ->
+  exists tr e, ctc_write d vol s = (mkst (Some (ZG (adel "geff" a) (adel path_EDGES (adel path_NODES ch)))) tr, Err e) /\
+               Ctc.from_ctc_to_geff d s = (mkst (Some (ZG (adel "geff" a) (adel path_EDGES (adel path_NODES ch)))) tr, Err e) /\
+               (forall gm, Ctc.convert d = Ok gm -> e = FileExistsError).
+Proof. exact ctc_overwrite_beside. Qed.
+Print Assumptions C06_ctc_overwrite_beside.
+
+Theorem C06_tm_overwrite_beside : forall d ds dt a ch s,
+  TrackMate.tm_exists d = true -> s_root s = Some (ZG a ch) -> ahas "geff" a = true -> adel path_EDGES (adel path_NODES ch) <> [] ->
+  exists tr e, TrackMate.from_trackmate d ds dt true s
+               = (mkst (Some (ZG (adel "geff" a) (adel path_EDGES (adel path_NODES ch)))) tr, Err e) /\
+               (forall gm, tm_conv d ds dt = Ok gm -> e = FileExistsError).
+Proof. exact tm_overwrite_beside. Qed.
+Print Assumptions C06_tm_overwrite_beside.
+
+(* the label volume INSIDE the geff directory (segmentation_store = geff_path / "seg"): the export makes the directory exist, so
+   write_arrays' guard refuses -- the conversion never succeeds, on a free target as little as with overwrite (known finding
+   converter-overwrite-path-beside-foreign-members) *)
+Theorem C06_ctc_seg_inside_fails : forall d vol s rel,
+  seg_rel d = Some rel -> Ctc.seg_requested d = true -> Ctc.d_frames d <> [] ->
+  snd (ctc_write d vol s) <> Ok tt.
+Proof. exact ctc_seg_inside_fails. Qed.
+Print Assumptions C06_ctc_seg_inside_fails.
+
+(* where the label volume goes elsewhere, ctc_write is the program of Ctc.v (C15) *)
+Theorem C06_ctc_write_is_ctc : forall d vol s, seg_rel d = None -> ctc_write d vol s = Ctc.from_ctc_to_geff d s.
+Proof. exact ctc_write_outside. Qed.
+Print Assumptions C06_ctc_write_is_ctc.
+
+(* witnesses: a CTC dataset and a TrackMate document converted with overwrite=True onto a directory that holds a geff beside a
+   foreign group *)
+Definition C06_old_beside : option znode :=
+  Some (ZG [("geff", AGeff (Some (mkmd true None [] [] 0%Z)))]
+           [("nodes", ZG [] [("ids", ZA (mkarr DU8 [0%nat] []))]); ("edges", ZG [] [("ids", ZA (mkarr DU8 [0%nat; 2%nat] []))]);
+            ("seg", ZG [] [])]).
+Definition C06_ex_ctc (ov : bool) (seg : Ctc.segtarget) : Ctc.ctc :=
+  Ctc.mkctc true (Some [Ctc.mkrow 1 0 1 0]) false [4%nat; 4%nat]
+            [[(1%Z, Ctc.mkcent 0 1024 2048)]; [(1%Z, Ctc.mkcent 0 1536 2048)]] ["out.geff"] seg false false ov.
+Definition C06_ex_vol : arr := mkarr DU16 [2%nat; 1%nat; 1%nat] [1; 1]%Z.
+Definition C06_ex_tm : TrackMate.tm :=
+  TrackMate.mktm true (Some "7.11.1") (Some "micron") (Some "sec")
+    (Some ([TrackMate.mkdecl "POSITION_X" (Some "X") (Some false) (Some "POSITION"); TrackMate.mkdecl "POSITION_Y" (Some "Y") (Some false) (Some "POSITION");
+            TrackMate.mkdecl "POSITION_Z" (Some "Z") (Some false) (Some "POSITION"); TrackMate.mkdecl "POSITION_T" (Some "T") (Some false) (Some "TIME");
+            TrackMate.mkdecl "FRAME" None (Some true) (Some "NONE")],
+           [TrackMate.mkdecl "SPOT_SOURCE_ID" None (Some true) (Some "NONE"); TrackMate.mkdecl "SPOT_TARGET_ID" None (Some true) (Some "NONE")],
+           [TrackMate.mkdecl "TRACK_ID" None (Some true) (Some "NONE")]))
+    (Some [TrackMate.mkspot [("ID", TrackMate.mkraw 0 (TrackMate.PInt 4 4096)); ("POSITION_X", TrackMate.mkraw 0 (TrackMate.PFlt 512));
+                             ("POSITION_Y", TrackMate.mkraw 0 (TrackMate.PFlt 1024)); ("POSITION_Z", TrackMate.mkraw 0 (TrackMate.PFlt 0));
+                             ("POSITION_T", TrackMate.mkraw 0 (TrackMate.PFlt 0)); ("FRAME", TrackMate.mkraw 0 (TrackMate.PInt 0 0))] None])
+    (Some []) (Some []) (Some None) false false false.
+
+Theorem C06_entry_refuted : ~ C06_entry_full.
+Proof.
+  intros H.
+  specialize (H (ECtc (C06_ex_ctc true Ctc.SegNone) C06_ex_vol)
+                [("geff", AGeff (Some (mkmd true None [] [] 0%Z)))]
+                [("nodes", ZG [] [("ids", ZA (mkarr DU8 [0%nat] []))]); ("edges", ZG [] [("ids", ZA (mkarr DU8 [0%nat; 2%nat] []))]);
+                 ("seg", ZG [] [])]).
+  vm_compute in H. specialize (H _ _ eq_refl eq_refl eq_refl eq_refl). discriminate H.
+Qed.
+Print Assumptions C06_entry_refuted.
+
+Theorem C06_entry_refuted_tm : ~ C06_entry_full.
+Proof.
+  intros H.
+  specialize (H (ETm C06_ex_tm false false true)
+                [("geff", AGeff (Some (mkmd true None [] [] 0%Z)))]
+                [("nodes", ZG [] [("ids", ZA (mkarr DU8 [0%nat] []))]); ("edges", ZG [] [("ids", ZA (mkarr DU8 [0%nat; 2%nat] []))]);
+                 ("seg", ZG [] [])]).
+  vm_compute in H. specialize (H _ _ eq_refl eq_refl eq_refl eq_refl). discriminate H.
+Qed.
+Print Assumptions C06_entry_refuted_tm.
+
+(* TABLE EXPORT (geff_to_csv, two-file target, as repaired: both files are checked before either is written).  Without overwrite,
+   an export onto a target of which EITHER file exists raises FileExistsError and leaves both files as they were -- and it raises
+   FileExistsError only then; with overwrite the result does not depend on what was there *)
+Theorem C06_csv_refuse : forall s g, Table.csv_occupied s = true -> Table.geff_to_csv s g false = (s, Err FileExistsError).
+Proof. exact TableLemmas.csv_refuse. Qed.
+Print Assumptions C06_csv_refuse.
+
+Theorem C06_csv_refuse_iff : forall s g, snd (Table.geff_to_csv s g false) = Err FileExistsError <-> Table.csv_occupied s = true.
+Proof. exact TableLemmas.csv_refuse_iff. Qed.
+Print Assumptions C06_csv_refuse_iff.
+
+Theorem C06_csv_replace : forall s g ov, Table.geff_to_csv s g true = Table.geff_to_csv (Table.mkFs None None) g ov.
+Proof. exact TableLemmas.csv_overwrite_as_fresh. Qed.
+Print Assumptions C06_csv_replace.
+
+(* "through every write entry point": the table of source functions behind these models (Entry.entry_points / modelled_calls)
+   against the source as it is now.  The translator lists every call, anywhere in the two packages, of a function through which a
+   geff target or another output is written or deleted, with its caller and with what it passes for overwrite / mode (write_calls),
+   and every function with an `overwrite` parameter (param_defaults).  The two call lists are the same set -- so e.g.
+   from_ctc_to_geff, write_dicts and SgBackend.write call write_arrays WITHOUT overwrite, both CLI commands hand their flag on,
+   geff.write calls the backend without it --, every caller and every function with an `overwrite` parameter is in the table, every
+   forwarding target too.  A new writing function, or a changed overwrite argument, breaks this theorem. *)
+Theorem C06_source_entry_points_covered : entry_points_cover_source = true.
+Proof. vm_compute. reflexivity. Qed.
+Print Assumptions C06_source_entry_points_covered.
+
+(* non-vacuity.  CTC: conversion onto nothing succeeds; a second conversion without overwrite changes nothing; with overwrite the
+   nodes are those of the new dataset; beside a foreign group the old geff is deleted and FileExistsError raised; with the label
+   volume inside the geff directory the conversion fails on a free target and leaves the volume.  TrackMate: the same first four.
+   Table export: nodes file absent, edges file present: refused, nothing created. *)
+Example C06_entry_nonvacuous :
+  let d0 := C06_ex_ctc false Ctc.SegNone in
+  let d1 := C06_ex_ctc true Ctc.SegNone in
+  let s1 := fst (run (e_run (ECtc d0 C06_ex_vol)) None) in
+  is_ok (snd (run (e_run (ECtc d0 C06_ex_vol)) None)) = true /\
+  run (e_run (ECtc d0 C06_ex_vol)) s1 = (s1, Err FileExistsError) /\
+  is_ok (snd (run (e_run (ECtc d1 C06_ex_vol)) s1)) = true /\
+  run (e_run (ECtc d1 C06_ex_vol)) C06_old_beside = (Some (ZG [] [("seg", ZG [] [])]), Err FileExistsError) /\
+  run (e_run (ECtc (C06_ex_ctc false (Ctc.SegPath ["out.geff"; "seg"])) C06_ex_vol)) None
+    = (Some (ZG [] [("seg", ZA C06_ex_vol)]), Err FileExistsError) /\
+  TrackMateLemmas.wf_tm C06_ex_tm /\
+  let t1 := fst (run (e_run (ETm C06_ex_tm false false false)) None) in
+  is_ok (snd (run (e_run (ETm C06_ex_tm false false false)) None)) = true /\
+  run (e_run (ETm C06_ex_tm false false false)) t1 = (t1, Err FileExistsError) /\
+  run (e_run (ETm C06_ex_tm false false true)) t1 = run (e_run (ETm C06_ex_tm false false false)) None /\
+  run (e_run (ETm C06_ex_tm false false true)) C06_old_beside = (Some (ZG [] [("seg", ZG [] [])]), Err FileExistsError) /\
+  Table.geff_to_csv (Table.mkFs None (Some [])) (Table.mkGraph [7]%Z [] [] []) false = (Table.mkFs None (Some []), Err FileExistsError).
+Proof.
+  cbn zeta. repeat (split; [vm_compute; reflexivity|]).
+  split; [apply TrackMateProps.wf_tmb_sound; vm_compute; reflexivity|].
+  vm_compute. repeat split.
+Qed.
